@@ -211,6 +211,8 @@ impl PqFold for SortingInference<'_> {
                         for old_cid in new_columns {
                             let new_cid = self.ctx.anchor.cid.gen();
                             let name = self.ctx.anchor.ensure_column_name(*old_cid).cloned();
+                            #[cfg(prqlc_verif)]
+                            self.ctx.anchor.verif_ensured(*old_cid);
                             if let Some(name) = name.clone() {
                                 self.ctx.anchor.column_names.insert(new_cid, name);
                             }
